@@ -82,7 +82,7 @@ def run(ctx):
                        'readers; distinct non-trivial = distinct (composition shape, history) pairs whose composition nests at least two reader kinds '
                        'and whose history has a read that is not byte aligned or follows a seek')
     ctx.assumptions += ['leaf contents are seeded random bytes; bits after the logical end of a leaf are deliberately non-zero',
-                        'the open-file stack is exercised with small files and small cache sizes; its 512 KiB block size only through the C05/C03 corpus arms']
+                        'the open-file stack with its real 512 KiB block size is exercised through the command line on a 1.5 MiB file (byte windows compared with Go slicing of the known content)']
     # 1. as-built model of the read-ahead cache
     def ac(drop, F, M, R):
         return 'SPECIFICATION Spec\nCONSTANTS\n F = %d\n M = %d\n MaxRead = %d\n DropOnSeekEnd = %s\nINVARIANT ReadsTrue\nINVARIANT CacheTrue\nCHECK_DEADLOCK FALSE\n' % (F, M, R, drop)
@@ -117,7 +117,10 @@ def run(ctx):
     wp = os.path.join(ctx.build, 'write_events.ndjson')
     ctx.run([binp, 'write', str(20000 if th else 3000), wp], check=True, timeout=600)
     wevs = vlib.read_ndjson(wp)
-    allev = evs + wevs
+    sp = os.path.join(ctx.build, 'stack_events.ndjson')
+    ctx.run([binp, 'stack', str(3000 if th else 400), sp], check=True, timeout=900)
+    sevs = vlib.read_ndjson(sp)
+    allev = evs + wevs + sevs
     for i, e in enumerate(allev):
         if e['panic']:
             top = e['panic'].split('\n')[0][:160]
@@ -127,7 +130,7 @@ def run(ctx):
     ctx.cov['traces_validated_against_impl'] += len(allev)
     ctx.cov['evaluations'] += sum(len(e['ops']) for e in evs) + len(wevs)
     ctx.cov['bitio'] = dict(gen_cases=gen_n, random_cases=len(evs) - gen_n, writer_cases=len(wevs), calls=sum(len(e['ops']) for e in evs),
-                            reader_kinds=sorted(set().union(*[kinds(e['term']) for e in evs])))
+                            reader_kinds=sorted(set().union(*[kinds(e['term']) for e in evs])), openfile_windows=len(sevs))
     nt = set()
     for e in evs:
         if len(kinds(e['term'])) >= 2 and any((o['op'] in ('read', 'readat', 'readfull') and (o['u'] == 1 and o['n'] % 8)) or o['op'] == 'seek' for o in e['ops']):
@@ -137,6 +140,9 @@ def run(ctx):
         e = allev[i]
         if e['kind'] == 'write':
             ctx.finding('bitio.' + sig, 'writer chunks %s' % [len(c) for c in e['chunks']], e)
+            continue
+        if e['kind'] == 'window':
+            ctx.finding('bitio.' + sig, 'opened 1.5 MiB file, tobytes[%d:%d]' % (e['a'], e['b']), dict(a=e['a'], b=e['b']))
             continue
         o = e['ops'][opi - 1] if opi else {}
         outer = e['term']['t']
